@@ -308,7 +308,9 @@ def St.step (st : St) : HOp → Out × St
   | .resize n =>
     match st.pdu with
     | none => (.skip, st)
-    | some p => let (rc, p1, h1) := resize p n st.heap; (.num rc, { st with heap := h1, pdu := some p1 })
+    | some p =>
+      if n < p.buf.length then (.skip, st) else      -- no caller of coap_pdu_resize shrinks below used_size: the script skips it
+      let (rc, p1, h1) := resize p n st.heap; (.num rc, { st with heap := h1, pdu := some p1 })
   | .check n =>
     match st.pdu with
     | none => (.skip, st)
